@@ -51,6 +51,16 @@ Verdict(c) ==
   IN [v |-> IF bad = <<>> THEN "ok" ELSE RunClause(c, bad[1], certified, q, cert, lo, mu),
       tags |-> IF bad = <<>> THEN <<>> ELSE bad[1].tag,
       certified |-> certified, q |-> q]
+\* structural signature used by recorded findings (spec-evaluated)
+HasEdgelessNode(g) == \E i \in DOMAIN g.rules : LET r == g.rules[i] IN
+   \E j \in DOMAIN r.nodes : \A k \in DOMAIN r.edges : ~BHas(r.edges[k].att, j)
+\* some edge of a rule with >= 2 edges shares no node with the other edges (nullary edges included)
+HasDisjointEdge(g) == \E i \in DOMAIN g.rules : LET r == g.rules[i] IN
+   Len(r.edges) >= 2 /\ \E k \in DOMAIN r.edges :
+      BSeqSet(r.edges[k].att) \cap UNION { BSeqSet(r.edges[m].att) : m \in DOMAIN r.edges \ {k} } = {}
+HasRepeatedAttachment(g) == \E i \in DOMAIN g.rules : \E k \in DOMAIN g.rules[i].edges : ~BNoDup(g.rules[i].edges[k].att)
+SigTags(c) == (IF HasEdgelessNode(c.ag) THEN <<"edgeless_node">> ELSE <<>>) \o (IF HasDisjointEdge(c.ag) THEN <<"edge_disjoint_from_others">> ELSE <<>>)
+              \o (IF HasRepeatedAttachment(c.ag) THEN <<"repeated_attachment">> ELSE <<>>)
 Judge == LET c == Cases[tid] r == Verdict(c) IN
-         PrintT(ToJson([gtid |-> c.gtid, v |-> r.v, tags |-> r.tags, certified |-> r.certified, q |-> r.q]))
+         PrintT(ToJson([gtid |-> c.gtid, v |-> r.v, tags |-> r.tags \o SigTags(c), certified |-> r.certified, q |-> r.q]))
 =============================================================================
